@@ -150,6 +150,16 @@ func init() {
 			g.gb.VRunFrame(context.Background())
 		}
 	})
+	// gb.framesc I N: N frame steps with a context that is already cancelled: a frame that has started runs to its end
+	// (Run only looks at the context between frames)
+	register("gb.framesc", func(a []string) {
+		g := gbs[ai(a, 1)]
+		ctx, cancel := context.WithCancel(context.Background())
+		cancel()
+		for i := 0; i < ai(a, 2); i++ {
+			g.gb.VRunFrame(ctx)
+		}
+	})
 	register("gb.cyc", func(a []string) {
 		g := gbs[ai(a, 1)]
 		for i := 0; i < ai(a, 2); i++ {
